@@ -518,8 +518,9 @@ class ExprMixin:
         if isinstance(v, Sym) and v.ty == ("ref", "Obj") and attr == "shape":
             from .core import uf, Ref as _Ref, I as _I
             return [((Sym(uf("NP_ROWS", _Ref, _I)(v.t), "int"), Sym(uf("NP_COLS", _Ref, _I)(v.t), "int")), st)]
-        if isinstance(v, Sym) and v.ty == ("ref", "Obj") and attr == "as_array":
-            return [(BoundMethod(v, "<builtin>", "as_array"), st)]
+        if isinstance(v, Sym) and v.ty == ("ref", "Obj") and attr in ("as_array", "copy"):
+            # value-preserving views of an immutable numeric array (A-NUMPY): identity on the abstract value
+            return [(BoundMethod(v, "<builtin>", attr), st)]
         if attr == "size" and (isinstance(v, (int, float)) or (isinstance(v, Sym) and v.ty in ("int", "real"))):
             return [(1, st)]
         if attr == "size" and isinstance(v, SeqV):
@@ -636,6 +637,10 @@ class ExprMixin:
             from .core import uf, Ref as _Ref, I as _I
             it, _ = znum(k[1])
             return [(Sym(uf("NP_COL", _Ref, _I, _Ref)(v.t, it), ("ref", "Obj")), st)]
+        if isinstance(v, Sym) and v.ty == ("ref", "Obj") and isinstance(k, Sym) and k.ty == ("ref", "Obj"):
+            # numpy integer-array indexing: a[idx] takes the rows of a in the order given by idx (A-NUMPY; pm.AbstractArray delegates)
+            from .core import uf, Ref as _Ref
+            return [(Sym(uf("NP_TAKE", _Ref, _Ref, _Ref)(v.t, k.t), ("ref", "Obj")), st)]
         if isinstance(v, Sym) and is_ref_ty(v.ty):
             return self.call_method(v, v.ty[1], "__getitem__", [k], {}, st, node)
         if isinstance(v, (ListLoc, SeqV)):
